@@ -354,6 +354,7 @@ def run_pair(start_db: str, rows: list[int], policy: Policy, *, events: bool = F
     w = copy_world(start_db, events=events)
     w.errors = []
     w.wf_id = w._exec_side("SELECT id FROM pipeline_executions ORDER BY created_at LIMIT 1").fetchone()[0]
+    race_start_seq = w.max_seq()
     sched = Scheduler(policy)
     w.commit_listeners.append(lambda world, idx, conn: sched.commit_event(conn))
     msgs = []
@@ -384,6 +385,7 @@ def run_pair(start_db: str, rows: list[int], policy: Policy, *, events: bool = F
         return None, info
     if drain:
         run = delivery_run({}, world=w, resubmit=False, max_steps=max_steps)
+        run.race_start_seq = race_start_seq  # type: ignore[attr-defined]
     else:
         from .runs import Run
 
